@@ -29,6 +29,7 @@
 #include "draco/compression/bit_coders/rans_bit_encoder.h"
 #include "draco/compression/bit_coders/symbol_bit_decoder.h"
 #include "draco/compression/bit_coders/symbol_bit_encoder.h"
+#include "draco/compression/entropy/ans.h"
 #include "draco/core/bit_utils.h"
 #include "draco/core/decoder_buffer.h"
 #include "draco/core/encoder_buffer.h"
@@ -1401,6 +1402,105 @@ int main(int argc, char **argv) {
     sp.run = [=](uint64_t idx, mc::Ctx &ctx) { run_ints32_chunk<true, true, true>((*chunks)[idx], ctx); };
     sp.describe = [=](uint64_t idx) {
       return ints32_describe((*chunks)[idx], "ASan slice (exact-size block, every truncated varint prefix): ");
+    };
+    R.add(sp);
+  }
+  // Final-state serialisation of the rANS coders: EVERY legal final state of the bit coder (L_BASE .. L_BASE*256-1) and of the symbol
+  // coder at precision 12 (all 4.2 M states) and 20 (a band of 2^16 states around every length-tag boundary and both ends), written
+  // by write_end behind 0..3 payload bytes and read back by read_init: same state, same payload offset.
+  {
+    mc::Space sp;
+    sp.name = "rans_final_states";
+    const uint64_t kChunk = 4096;
+    // the lower bound of the normalised state interval is what write_init starts from; the interval is [L, L * 256) (byte-wise I/O)
+    uint8_t probe[16];
+    draco::AnsCoder pw;
+    draco::ans_write_init(&pw, probe);
+    const uint64_t kLBase = pw.state, kIoBase = 256;
+    draco::RAnsEncoder<12> p12w;
+    p12w.write_init(probe);
+    draco::RAnsEncoder<20> p20w;
+    p20w.write_init(probe);
+    const uint64_t bit_states = kLBase * kIoBase - kLBase;
+    const uint64_t p12_base = p12w.ans_.state, p12_states = p12_base * kIoBase - p12_base;
+    const uint64_t p20_base = p20w.ans_.state;
+    auto p20 = std::make_shared<std::vector<uint64_t>>();  // chunk starts (state - base)
+    for (uint64_t centre : {uint64_t(1) << 6, uint64_t(1) << 14, uint64_t(1) << 22, uint64_t(1) << 30})
+      for (uint64_t k = 0; k < 16; ++k) {
+        const uint64_t start = centre > 8 * kChunk ? centre - 8 * kChunk + k * kChunk : k * kChunk;
+        if (start + kChunk <= p20_base * kIoBase - p20_base) p20->push_back(start);
+      }
+    for (uint64_t k = 0; k < 16; ++k) p20->push_back(p20_base * kIoBase - p20_base - (k + 1) * kChunk);
+    const uint64_t n_bit = (bit_states + kChunk - 1) / kChunk, n_p12 = (p12_states + kChunk - 1) / kChunk, n_p20 = p20->size();
+    sp.size = n_bit + n_p12 + n_p20;
+    sp.quick = sp.thorough = true;
+    sp.cases_per_index = kChunk * 4;
+    sp.run = [=](uint64_t idx, mc::Ctx &ctx) {
+      uint8_t buf[16];
+      auto fail = [&](const char *what, uint64_t state, int payload, uint64_t got, int off) {
+        ctx.fail(std::string("rans-final-state:") + what,
+                 "state " + std::to_string(state) + " behind " + std::to_string(payload) + " payload bytes reads back as state " + std::to_string(got) + " payload offset " + std::to_string(off));
+      };
+      if (idx < n_bit) {
+        for (uint64_t s = idx * kChunk; s < std::min(bit_states, (idx + 1) * kChunk); ++s)
+          for (int payload = 0; payload < 4; ++payload) {
+            memset(buf, 0xA5, sizeof buf);
+            draco::AnsCoder w;
+            draco::ans_write_init(&w, buf);
+            w.buf_offset = payload;
+            w.state = (uint32_t)(s + kLBase);
+            const int n = draco::ans_write_end(&w);
+            draco::AnsDecoder r;
+            const int rc = draco::ans_read_init(&r, buf, n);
+            ctx.count("rans_states_round_tripped");
+            if (rc != 0 || r.state != s + kLBase || r.buf_offset != payload) {
+              fail("bit-coder", s + kLBase, payload, rc ? 0 : r.state, rc ? -1 : r.buf_offset);
+              return;
+            }
+          }
+      } else {
+        const bool is12 = idx < n_bit + n_p12;
+        const uint64_t start = is12 ? (idx - n_bit) * kChunk : (*p20)[idx - n_bit - n_p12];
+        const uint64_t base = is12 ? p12_base : p20_base, states = is12 ? p12_states : p20_base * kIoBase - p20_base;
+        for (uint64_t s = start; s < std::min(states, start + kChunk); ++s)
+          for (int payload = 0; payload < 4; ++payload) {
+            memset(buf, 0xA5, sizeof buf);
+            uint64_t got = 0;
+            int off = -1, rc = 1;
+            if (is12) {
+              draco::RAnsEncoder<12> w;
+              w.write_init(buf);
+              w.ans_.buf_offset = payload;
+              w.ans_.state = (uint32_t)(s + base);
+              const int n = w.write_end();
+              draco::RAnsDecoder<12> r;
+              rc = r.read_init(buf, n);
+              got = r.ans_.state;
+              off = r.ans_.buf_offset;
+            } else {
+              draco::RAnsEncoder<20> w;
+              w.write_init(buf);
+              w.ans_.buf_offset = payload;
+              w.ans_.state = (uint32_t)(s + base);
+              const int n = w.write_end();
+              draco::RAnsDecoder<20> r;
+              rc = r.read_init(buf, n);
+              got = r.ans_.state;
+              off = r.ans_.buf_offset;
+            }
+            ctx.count("rans_states_round_tripped");
+            if (rc != 0 || got != s + base || off != payload) {
+              fail(is12 ? "symbol-coder-precision-12" : "symbol-coder-precision-20", s + base, payload, got, off);
+              return;
+            }
+          }
+      }
+      ctx.nontrivial_unique();
+    };
+    sp.describe = [=](uint64_t idx) {
+      if (idx < n_bit) return std::string("rANS bit coder final states ") + std::to_string(idx * kChunk + kLBase) + "..+4095 x 0..3 payload bytes";
+      if (idx < n_bit + n_p12) return std::string("rANS symbol coder (precision 12) final states ") + std::to_string((idx - n_bit) * kChunk + p12_base) + "..+4095 x 0..3 payload bytes";
+      return std::string("rANS symbol coder (precision 20) final states ") + std::to_string((*p20)[idx - n_bit - n_p12] + p20_base) + "..+4095 x 0..3 payload bytes";
     };
     R.add(sp);
   }
